@@ -143,6 +143,15 @@ func init() {
 			st.Assume(Eq(r, And(Eq(a.Len, b.Len), Term{q, SBool})))
 			k(st, []Value{r})
 		},
+		"crypto/subtle.ConstantTimeCompare": func(e *Engine, st *State, fr *Frame, site ssa.Instruction, callee *ssa.Function, args []Value, k cont) {
+			a, b := args[0].(VSlice), args[1].(VSlice)
+			h := bytesHeap(e, st)
+			r := e.sym.Fresh("ctCompare", SBool)
+			q := fmt.Sprintf("(forall ((i Int)) (=> (and (<= 0 i) (< i %s)) (= (select (select %s %s) (+ %s i)) (select (select %s %s) (+ %s i)))))",
+				a.Len.S, h.S, a.Arr.S, a.Off.S, h.S, b.Arr.S, b.Off.S)
+			st.Assume(Eq(r, And(Eq(a.Len, b.Len), Term{q, SBool})))
+			k(st, []Value{Ite(r, TOne, TZero)})
+		},
 		"bytes.Compare": func(e *Engine, st *State, fr *Frame, site ssa.Instruction, callee *ssa.Function, args []Value, k cont) {
 			a, b := args[0].(VSlice), args[1].(VSlice)
 			h := bytesHeap(e, st)
